@@ -61,6 +61,16 @@ class TypeRef:
         return self.name
 
 
+class ObjV:
+    """an object with known attributes (anything else is undecided)"""
+
+    def __init__(self, name: str, attrs: Dict[str, Any], cls: Optional[str] = None):
+        self.name, self.attrs, self.cls = name, attrs, cls
+
+    def __repr__(self):
+        return f"<{self.name}>"
+
+
 class Closure:
     def __init__(self, node, env, owner=None):
         self.node, self.env, self.owner = node, env, owner
@@ -95,6 +105,7 @@ class Interp:
         self.depth = 0
         self.mutated: List[str] = []  # names of input containers mutated in place
         self.inputs: Dict[int, str] = {}
+        self.intercept: Dict[str, Any] = {}  # function name -> python callable(args, kwargs) standing for a repo function
 
     # ---- helpers ------------------------------------------------------------------------------------------------------------
     def method(self, name):
@@ -109,8 +120,14 @@ class Interp:
                 return n
         return None
 
-    def module_const(self, name):
-        for n in self.mi.tree.body:
+    def module_const(self, name, mi=None, depth=0):
+        mi = mi or self.mi
+        for n in mi.tree.body:
+            if isinstance(n, ast.ImportFrom) and depth < 3:
+                for a in n.names:
+                    if (a.asname or a.name) == name and n.module and n.module in self.repo.modules:
+                        return self.module_const(a.name, self.repo.module(n.module), depth + 1)
+        for n in mi.tree.body:
             tgt = None
             if isinstance(n, ast.Assign) and len(n.targets) == 1 and isinstance(n.targets[0], ast.Name):
                 tgt, val = n.targets[0].id, n.value
@@ -141,7 +158,7 @@ class Interp:
     def truth(self, v) -> bool:
         if isinstance(v, (Sym, Coerced)):
             raise Undecided(f"truth value of the input leaf {v!r}")
-        if isinstance(v, (Ctor, TypeRef, Closure, BoundBuiltin)):
+        if isinstance(v, (Ctor, TypeRef, Closure, BoundBuiltin, ObjV)):
             return True
         return bool(v)
 
@@ -332,6 +349,8 @@ class Interp:
                 return env[e.id]
             if e.id == self.clsname:
                 return TypeRef(self.clsname)
+            if e.id in self.intercept:
+                return BoundBuiltin(("intercept", e.id), "__call__")
             fn = self.module_func(e.id)
             if fn is not None:
                 return Closure(fn, {})
@@ -516,6 +535,8 @@ class Interp:
             return {"int": "int", "float": "float", "str": "str", "bool": "bool"}.get(v.fn, "float")
         if isinstance(v, Ctor):
             return self.clsname
+        if isinstance(v, ObjV):
+            return v.cls or "object"
         if v is None:
             return "NoneType"
         return type(v).__name__
@@ -529,6 +550,16 @@ class Interp:
             if c is not _MISSING:
                 return c
             raise Undecided(f"{self.clsname}.{attr}")
+        if isinstance(obj, ObjV):
+            if attr in obj.attrs:
+                return obj.attrs[attr]
+            m = self.method(attr) if obj.cls == self.clsname else None
+            if m is not None:
+                decos = [ast.unparse(d) for d in m.decorator_list]
+                if "property" in decos:
+                    return self.call_function(m, [], {}, bound_first=obj)
+                return Closure(m, {"__self__": obj}, owner="self")
+            raise Undecided(f"attribute {attr} of {obj!r}")
         if isinstance(obj, (list, dict, str, tuple, set)):
             return BoundBuiltin(obj, attr)
         if isinstance(obj, BoundBuiltin) and obj.recv is None:
@@ -566,6 +597,8 @@ class Interp:
                 if "staticmethod" in decos:
                     return self.call_function(fn, args, dict(kwargs), f.env)
                 raise Undecided(f"instance method {fn.name} called on the class")
+            if f.owner == "self":
+                return self.call_function(fn, args, dict(kwargs), {}, bound_first=f.env["__self__"])
             return self.call_function(fn, args, dict(kwargs), f.env)
         if isinstance(f, BoundBuiltin):
             return self.builtin(f.recv, f.name, args, kwargs)
@@ -657,6 +690,8 @@ class Interp:
                 return BoundBuiltin(("itemgetter", keys), "__call__")
             raise Undecided(f"call of {name}")
         # methods of containers / strings
+        if isinstance(recv, tuple) and recv and recv[0] == "intercept" and name == "__call__":
+            return self.intercept[recv[1]](args, kwargs)
         if isinstance(recv, tuple) and recv and recv[0] == "itemgetter" and name == "__call__":
             keys = recv[1]
             obj = args[0]
@@ -751,6 +786,12 @@ class Interp:
         if isinstance(recv, str):
             if name in ("lower", "upper", "capitalize", "title", "strip", "casefold", "swapcase") and not args:
                 return getattr(recv, name)()
+            if name in ("split", "rsplit", "partition", "rpartition", "removeprefix", "removesuffix", "replace", "find", "index", "count", "join") and all(isinstance(a, (str, int)) or (name == "join" and isinstance(a, (list, tuple)) and all(isinstance(x, str) for x in a)) for a in args) and not kwargs:
+                try:
+                    r = getattr(recv, name)(*args)
+                except (ValueError, TypeError) as ex:
+                    raise Raised(type(ex).__name__)
+                return list(r) if isinstance(r, list) else r
             if name in ("startswith", "endswith") and len(args) == 1 and isinstance(args[0], (str, tuple)):
                 return getattr(recv, name)(args[0])
             if name == "format" and all(isinstance(a, (str, int, float)) for a in args) and not kwargs:
